@@ -249,8 +249,17 @@ impl DateFilter for ds::YearRange {
                 curr_year + 1
             } else {
                 // 5. time is in the range but doesn't match the step
-                let round_up = |x: u16, d: u16| d * x.div_ceil(d); // get the first multiple of `d` greater than `x`.
-                range.start() + round_up(curr_year - range.start(), self.step)
+                let round_up = |x: u32, d: u32| d * x.div_ceil(d); // get the first multiple of `d` greater than `x`.
+
+                let next_match = u32::from(*range.start())
+                    + round_up((curr_year - range.start()).into(), self.step.into());
+
+                // A step too big for the next match to be a valid year means the state won't ever
+                // change.
+                match u16::try_from(next_match) {
+                    Ok(year) => year,
+                    Err(_) => return Some(DATE_END.date()),
+                }
             }
         };
 
